@@ -198,11 +198,33 @@ theorem insert_other_task_op (drp : String) (pre post : List Op) (op : Op) (t : 
   apply other_tasks_irrelevant drp _ _ t
   simp [List.filter_append, hop]
 
+/-- **Concurrent writers.** `WritePoints` hands its points to the forking goroutine one by one, so several writers at once amount to
+SOME interleaving of their points that keeps each writer's order. A call with `a ++ b` delivers exactly what the two calls `a`, `b`
+deliver, anywhere in any history — hence every such interleaving is a history of single-point writes, to which `route_refines_spec`
+applies: each sink gets the selected points of THAT interleaving, once, in that order (the driver reconstructs the interleaving
+from the sinks and rejects recordings no single interleaving explains). -/
+theorem write_call_splits (drp : String) (pre post : List Op) (db rp : String) (a b : List RawPoint) (t : String) (i : Nat) :
+    (run drp (pre ++ .write db rp (a ++ b) :: post)).delivered t i =
+      (run drp (pre ++ .write db rp a :: .write db rp b :: post)).delivered t i := by
+  rw [route_refines_spec, route_refines_spec]
+  unfold specDelivered
+  congr 2
+  -- the prefix is the same history, and leaves `t` in the same state
+  have key : ∀ (pre : List Op) cur, writeEvents drp t cur (pre ++ .write db rp (a ++ b) :: post) =
+      writeEvents drp t cur (pre ++ .write db rp a :: .write db rp b :: post) := by
+    intro pre
+    induction pre with
+    | nil => intro cur; exact writeEvents_write_append drp t cur db rp a b post
+    | cons op rest ih =>
+      intro cur
+      cases op <;> simp [writeEvents, ih]
+  exact key pre none
+
 /-! ### Non-vacuity: the hypotheses are met by concrete, non-trivial histories -/
 
 /-- two tasks, one with the exact+wildcard subscription, a stop of the other task between two writes, default-rp substitution -/
 def sample : List Op :=
-  [.start ⟨"t", [("d", "autogen")], [{ name := "cpu" }, { wh := some 0 }]⟩,
+  [.start ⟨"t", [("d", "autogen")], [{ name := "cpu" }, { wh := some 0 }, { name := "mem", parent := some 1 }]⟩,
    .start ⟨"u", [("d", "autogen"), ("e", "r2")], [{ name := "cpu" }]⟩,
    .write "d" "" [⟨1, "cpu", [0]⟩, ⟨2, "mem", []⟩],
    .stop "u",
@@ -214,6 +236,7 @@ def sample : List Op :=
 
 example : (writtenIds sample).Nodup ∧
     (run "autogen" sample).delivered "t" 0 = [1, 3] ∧ (run "autogen" sample).delivered "t" 1 = [1, 4] ∧
+    (run "autogen" sample).delivered "t" 2 = [4] ∧   -- chained below from-node #1: only what #1 passes AND is 'mem'
     (run "autogen" sample).delivered "u" 0 = [1] := by decide
 
 example : (sample.filter (relevant "t")).length < sample.length := by decide
